@@ -1442,18 +1442,17 @@ class C10(Prop):
                                   "note": f"the public list im.patterns edited directly, depth {k}"})
         if tier == "quick":
             edits = [c_ for i_, c_ in enumerate(edits) if not c_["note"].endswith("depth 3") or i_ % 2 == 0]
-        return [{"name": "re-entrant on_threat hook (calls m.filter on a probe / on the very input it was told about / "
-                         "m.learn_threat while it runs; un-installs itself for the duration): all histories of <= 3 ops (<= 2 "
-                         "under a rate limit / with adaptive immunity off) over probes, threshold, forget, learn, time that "
-                         "trigger the hook at least once" + (" (quick tier: every third history of depth 3)" if tier == "quick" else ""),
-                 "cases": reent},
-                {"name": "the input wrapped differently: 16 envelopes (source / signal type / strength / metadata flags / "
-                         "trace id / timestamp) x Signal object new / sent again / edited in place, rules changed between "
-                         "the calls", "cases": wraps},
-                {"name": "the public lists m.signatures / im.patterns edited directly (append / insert / pop / del / clear / "
-                         "re-assignment, not through add_signature / add_pattern), a second gate of the class alive: all "
-                         "histories of <= 3 ops with at least one edit and one probe" + (" (quick tier: every second history of depth 3)" if tier == "quick" else ""),
-                 "cases": edits},
+        return [{"name": "three spaces in one batch (one driver start): (a) re-entrant on_threat hook (calls m.filter on a probe / "
+                         "on the very input it was told about / m.learn_threat while it runs; un-installs itself for the "
+                         "duration): all histories of <= 3 ops (<= 2 under a rate limit / with adaptive immunity off) that "
+                         "trigger the hook at least once; (b) the input wrapped differently: 16 envelopes (source / signal "
+                         "type / strength / metadata flags / trace id / timestamp) x Signal object new / sent again / edited "
+                         "in place, antibodies as generator / tuple, the caller edits what a getter returned, a regex that "
+                         "does not compile; (c) the public lists m.signatures / im.patterns edited directly (append / insert "
+                         "/ pop / del / clear / re-assignment), a second gate of the class alive: all histories of <= 3 ops "
+                         "with at least one edit and one probe"
+                         + (" (quick tier: every third / second history of depth 3 in (a) / (c))" if tier == "quick" else ""),
+                 "cases": reent + wraps + edits},
                 {"name": "long histories on one membrane: 5000+ further blocked inputs between a block and the relaxation of "
                          "the rules (replay memory), 5000+ calls inside one rate window under a limit of 4500+, 1500+ learned "
                          "patterns, a long run repeated after the rules were relaxed, 1200+ checks in a row on one innate filter; clock gaps of an hour .. a year between "
